@@ -28,6 +28,7 @@ package loadbalance
 
 //@ func RandomLoadBalance
 //@   prop C19
+//@   modifies syncmapp(sessions)
 //@   defs nopanic-bounds
 //@   requires sessions != nil
 //@   ensures live: result != nil ==> hadkey(syncmapp(sessions), result) && !ufb("session.closed", result)
@@ -40,6 +41,7 @@ package loadbalance
 
 //@ func XidLoadBalance
 //@   prop C19
+//@   modifies syncmapp(sessions)
 //@   requires sessions != nil
 //@   ensures live: result != nil ==> hadkey(syncmapp(sessions), result) && !ufb("session.closed", result)
 //@   ensures nil-only-if-none-open: result == nil ==> foralls(s, getty.Session, hadkey(syncmapp(sessions), s) ==> ufb("session.closed", s))
@@ -50,8 +52,12 @@ package loadbalance
 //@   ensures sticky: len(parts) == 3 ==> foralls(s, getty.Session, hadkey(syncmapp(sessions), s) && !ufb("session.closed", s) && ufs("session.addr", s) == ipport ==> result != nil && ufs("session.addr", result) == ipport)
 //@   range 1 invariant only-closed-removed: foralls(s, getty.Session, hadkey(syncmapp(sessions), s) && !haskey(syncmapp(sessions), s) ==> ufb("session.closed", s))
 
+// per-address call counters live in a process-wide registry (rpc.GetStatus creates the entry on demand)
+//@ ext seata.apache.org/seata-go/pkg/remoting/rpc.GetStatus
+//@   ensures result != nil
 //@ func LeastActiveLoadBalance
 //@   prop C19
+//@   modifies syncmapp(sessions)
 //@   defs nopanic-bounds
 //@   requires sessions != nil
 //@   ensures live: result != nil ==> hadkey(syncmapp(sessions), result) && !ufb("session.closed", result)
@@ -62,6 +68,7 @@ package loadbalance
 
 //@ func Select
 //@   prop C19
+//@   modifies syncmapp(sessions), consistentInstance
 //@   requires sessions != nil
 //@   ensures live: result != nil ==> hadkey(syncmapp(sessions), result) && !ufb("session.closed", result)
 //@   ensures nil-only-if-none-open: result == nil ==> foralls(s, getty.Session, hadkey(syncmapp(sessions), s) ==> ufb("session.closed", s))
@@ -78,12 +85,14 @@ package loadbalance
 
 //@ func (*Consistent).pick
 //@   prop C19
+//@   modifies syncmapp(sessions)
 //@   requires c != nil && sessions != nil
 //@   ensures live: result != nil ==> hadkey(syncmapp(sessions), result) && !ufb("session.closed", result)
 //@   ensures nil-only-if-none-open: result == nil ==> foralls(s, getty.Session, hadkey(syncmapp(sessions), s) ==> ufb("session.closed", s))
 
 //@ func ConsistentHashLoadBalance
 //@   prop C19
+//@   modifies syncmapp(sessions), consistentInstance
 //@   requires sessions != nil
 //@   ensures live: result != nil ==> hadkey(syncmapp(sessions), result) && !ufb("session.closed", result)
 //@   ensures nil-only-if-none-open: result == nil ==> foralls(s, getty.Session, hadkey(syncmapp(sessions), s) ==> ufb("session.closed", s))
@@ -100,6 +109,7 @@ package loadbalance
 
 //@ func RoundRobinLoadBalance
 //@   prop C19
+//@   modifies syncmapp(sessions)
 //@   defs nopanic-bounds
 //@   requires sessions != nil
 //@   ensures live: result != nil ==> hadkey(syncmapp(sessions), result) && !ufb("session.closed", result)
